@@ -303,6 +303,178 @@ def replay_toykey(ctx, cname, r):
     ctx.action("replay.toykey.%s" % cname, cnt)
 
 
+# ------------------------------------------------------------------------------------------ public points in every representation
+def _rep(kind, x, y, gen, fgen):
+    if kind == "tuple":
+        return (x, y)
+    if kind == "list":
+        return [x, y]
+    return (gen if kind == "ownpoint" else fgen).Point(x, y)
+
+
+def _judge_pub(ctx, scale, site, f, want, label, what):
+    """f() builds the key; want: True accept / False refuse with InvalidPublicPairError / None no demand.
+    Returns the key if accepted."""
+    try:
+        k = f()
+        got = "ok"
+    except Exception as e:  # noqa: BLE001
+        k, got = None, K._exc(e)
+    if want is True and got != "ok":
+        ctx.fail("C10|%s|%s|%s|expected=accept|got=%s" % (site, scale, label, got), what, None)
+    if want is False and got != "InvalidPublicPairError":
+        ctx.fail("C10|%s|%s|%s|expected=InvalidPublicPairError|got=%s" % (site, scale, label, "accept" if got == "ok" else got), what, None)
+    return k
+
+
+def replay_pubrep(ctx, cname, r):
+    hdr = _hdr(r, "rephdr")
+    if (hdr["p"], hdr["a"], hdr["b"], hdr["gx"], hdr["gy"], hdr["n"]) != CURVES[cname]:
+        raise MachineryError("curve of the TLC run is not %s" % cname)
+    p, a, b, gx, gy, n = CURVES[cname]
+    gen, keycls = K.toy(p, a, b, gx, gy, n)
+    fo = hdr["foreign"]
+    fgen, fkeycls = K.toy(fo["p"], fo["a"], fo["b"], fo["gx"], fo["gy"], fo["n"])
+    cnt = 0
+    for rec in r.records:
+        k = rec.get("k")
+        if k == "repcol":
+            kind, x = rec["kind"], rec["x"]
+            acc, lift = set(rec["acc"]), set(rec["lift"])
+            for y in rec["cand"]:
+                try:
+                    obj = _rep(kind, x, y, gen, fgen)
+                except Exception as e:  # noqa: BLE001
+                    raise MachineryError("%s: cannot build a %s of (%d,%d) although the spec says it exists: %r" % (cname, kind, x, y, e))
+                want = True if y in acc else None if y in lift else False
+                if kind == "foreignpoint" and y in acc:
+                    want = None                      # the foreign point happens to be a point of this curve too
+                cls = "oncurve" if y in acc else "lifted" if y in lift else "offcurve"
+                for comp in (True, False):
+                    key = _judge_pub(ctx, "toy", "Key(public_pair)", lambda: keycls(public_pair=obj, is_compressed=comp), want,
+                                     "kind=%s|%s" % (kind, cls), "%s: %s %r" % (cname, kind, (x, y)))
+                    cnt += 1
+                    if key is not None and want and tuple(key.public_pair()) != (x, y):
+                        ctx.fail("C10|Key(public_pair)|toy|kind=%s|got=wrong-point" % kind, "%s: %r -> %r" % (cname, (x, y), key.public_pair()), None)
+                if want:
+                    ctx.case(("pubrep", cname, kind, x, y), 0)
+        elif k in ("repinf", "repkg", "repqmq"):
+            objs = []
+            if k == "repinf":
+                how = rec["how"]
+                objs = {"none-tuple": [(None, None)], "none-list": [[None, None]], "own-infinity": [gen.infinity()],
+                        "foreign-infinity": [fgen.infinity()], "none-x": [(None, gy), [None, gy]], "none-y": [(gx, None), [gx, None]]}[how]
+                label = "infinity:" + how if not how.startswith("none-x") and not how.startswith("none-y") else "half-none"
+            elif k == "repkg":
+                if not rec["isinf"] or rec["ok"]:
+                    raise MachineryError("spec: %d*G is not refused infinity" % rec["kk"])
+                objs = [rec["kk"] * gen, gen * rec["kk"], (rec["kk"] // n * fo["n"]) * fgen]
+                label = "infinity:k*G"
+                if any(tuple(o) != (None, None) for o in objs):
+                    raise MachineryError("%s: %d*G is not the point at infinity in pycoin (C02's domain)" % (cname, rec["kk"]))
+            else:
+                label = "infinity:Q+(-Q)"
+                for q in rec["pts"]:
+                    Q = gen.Point(*q)
+                    o = Q + (-Q)
+                    if tuple(o) != (None, None):
+                        raise MachineryError("%s: Q+(-Q) is not infinity in pycoin (C02's domain)" % cname)
+                    objs.append(o)
+                F = fgen.Point(fo["gx"], fo["gy"])
+                objs.append(F + (-F))
+            for o in objs:
+                for comp in (True, False):
+                    _judge_pub(ctx, "toy", "Key(public_pair)", lambda: keycls(public_pair=o, is_compressed=comp), False,
+                               label, "%s: %s %r (%s)" % (cname, label, tuple(o), type(o).__name__))
+                    cnt += 1
+            ctx.case(("pubrep", cname, label), 0)
+    ctx.replayed += cnt
+    ctx.case(None, cnt)
+    ctx.action("replay.pubrep.%s" % cname, cnt)
+    ctx.log("pubrep %s: %d public points x representation kinds offered to Key (foreign curve p=%d)" % (cname, cnt, fo["p"]))
+    return hdr["table"]
+
+
+def replay_pubrep_256(ctx, table):
+    """the class table of the spec concretized on secp256k1: foreign = secp256r1 and the p=43 curve"""
+    from pycoin.ecdsa.secp256r1 import secp256r1_generator as r1
+    net, keycls = _btc()
+    g = K.secp256k1_generator
+    t43, _ = K.toy(*CURVES["p43"])
+    t = K.sec256_table()
+    own = [(x, K.ref_roots(x)[i]) for x in t["pt"][:3] for i in (0, 1)] + [K.ref_mul(7), K.ref_mul(K.N - 1)]
+    r1pts = [tuple(int(c) for c in (k * r1)) for k in (1, 2, 3)]
+    toypts = [(2, 12), (7, 7)]
+    if any(K.on_curve(*q) for q in r1pts + toypts) or not all(K.on_curve(*q) for q in own):
+        raise MachineryError("pubrep256 concretization inconsistent")
+    offboth = [(x, (K.ref_roots(x)[0] + 1) % K.P) for x in t["pt"][:2]] + [(x, 1) for x in t["nopt"][:2]] + [(0, 0)]
+    cnt = 0
+    seen = set()
+    for row in table:
+        kind, cls, ok = row["kind"], row["cls"], row["ok"]
+        objs = []
+        if cls == "own-affine":
+            objs = [(q, q) for q in own]
+        elif cls == "foreign-only":
+            objs = [(q, q) for q in r1pts + toypts]
+        elif cls == "off-both":
+            objs = [(q, q) for q in offboth]
+        elif cls == "infinity":
+            objs = [((None, None), None)]
+        elif cls == "half-none":
+            objs = [((None, K.GY), None), ((K.GX, None), None)]
+        for val, q in objs:
+            cands = []
+            if kind == "tuple":
+                cands = [tuple(val)]
+            elif kind == "list":
+                cands = [list(val)]
+            elif kind == "ownpoint":
+                cands = [g.Point(*val)] if cls == "own-affine" else [g.infinity(), K.N * g, g.Point(K.GX, K.GY) + (-g.Point(K.GX, K.GY)), 0 * g]
+            else:
+                if cls == "infinity":
+                    cands = [r1.infinity(), r1.order() * r1, t43.infinity(), 31 * t43]
+                else:
+                    cands = [(r1 if val in r1pts else t43).Point(*val)]
+            for o in cands:
+                label = "kind=%s|class=%s" % (kind, cls)
+                what = "%s %r (%s)" % (label, tuple(o), type(o).__name__)
+                for comp in (True, False):
+                    key = _judge_pub(ctx, "secp256k1", "Key(public_pair)", lambda: keycls(public_pair=o, is_compressed=comp), ok, label, what)
+                    cnt += 1
+                    if ok and key is not None and (tuple(key.public_pair()) != q or key.sec() != K.ref_sec(q, comp)
+                                                   or key.hash160() != K.hash160(K.ref_sec(q, comp))):
+                        ctx.fail("C10|Key(public_pair)|secp256k1|%s|got=wrong-key" % label, what, None)
+                if kind != "list":      # network.keys.public takes tuples (and Points, which are tuples); a list is read as a SEC blob
+                    key = _judge_pub(ctx, "secp256k1", "network.keys.public", lambda: net.keys.public(o), ok, label, what)
+                    cnt += 1
+                    if ok and key is not None and tuple(key.public_pair()) != q:
+                        ctx.fail("C10|network.keys.public|secp256k1|%s|got=wrong-key" % label, what, None)
+                    if ok:
+                        # and through SEC: the encodings of an accepted point come back as the same key
+                        for comp in (True, False):
+                            kk = K.key_from_sec(keycls, K.ref_sec(q, comp))
+                            cnt += 1
+                            if kk[0] != "ok" or kk[1] != q or kk[2] != comp:
+                                ctx.fail("C10|Key.from_sec|secp256k1|own-affine|expected=accept|got=%s" % kk[0], what, None)
+                else:
+                    try:
+                        key = net.keys.public(o)
+                        bad = "accept"
+                    except Exception as e:  # noqa: BLE001
+                        bad = None if K._exc(e) in K.REFUSALS or isinstance(e, TypeError) else K._exc(e)
+                    cnt += 1
+                    if bad:
+                        ctx.fail("C10|network.keys.public|secp256k1|kind=list|got=%s" % bad, what, None)
+                seen.add((kind, cls))
+    for c in seen:
+        ctx.case(("pubrep256",) + c, 0)
+    ctx.replayed += cnt
+    ctx.case(None, cnt)
+    ctx.action("replay.pubrep256", cnt)
+    ctx.log("pubrep256: %d (kind x class) rows of the spec's table, %d constructions on secp256k1 (foreign: secp256r1, p=43 curve)" % (len(table), cnt))
+
+
 # ------------------------------------------------------------------------------------------ secp256k1 classes
 def _btc():
     if "btc" not in _G:
@@ -799,7 +971,7 @@ def record_traces(seed, count):
     net0, keycls0 = _btc()
     traces = []
     for t in range(count):
-        kind = t % 4
+        kind = t % 5
         ev = []
         if kind == 0:        # ---- key session
             sym, net, pfx = rnd.choice(nets)
@@ -872,6 +1044,49 @@ def record_traces(seed, count):
                     blob = bytes(rnd.choice([0, 1, 2, 0x30, 0x30, 0x7f, 0x80, 0x81, 0xff, rnd.randrange(256)]) for _ in range(rnd.randint(0, 12)))
                 ev.append(_der_event(blob, False))
                 ev.append(_der_event(blob, True))
+        elif kind == 4:      # ---- public points in every representation
+            from pycoin.ecdsa.secp256r1 import secp256r1_generator as r1
+            g = K.secp256k1_generator
+            t43, _ = K.toy(*CURVES["p43"])
+            sym, net, pfx = rnd.choice(nets)
+            kc = type(net.keys.private(1))
+            for _ in range(8):
+                c = rnd.randrange(8)
+                if c == 0:
+                    q = K.ref_mul(rnd.randrange(1, K.N))
+                    obj = rnd.choice([tuple(q), list(q), g.Point(*q), rnd.randrange(1, K.N) * g])
+                elif c == 1:
+                    obj = rnd.choice([rnd.randrange(1, 50) * r1, rnd.randrange(1, 31) * t43])
+                    obj = rnd.choice([obj, tuple(obj), list(obj)])
+                elif c == 2:
+                    obj = rnd.choice([g.infinity(), K.N * g, r1.infinity(), t43.infinity(), (None, None), [None, None], 0 * g,
+                                      g.Point(K.GX, K.GY) + (-g.Point(K.GX, K.GY))])
+                elif c == 3:
+                    obj = rnd.choice([(None, rnd.getrandbits(256)), (rnd.getrandbits(256), None), [None, 5]])
+                elif c == 4:
+                    x = rnd.choice(K.sec256_table()["pt"])
+                    obj = (x, (K.ref_roots(x)[0] + rnd.randrange(1, 5)) % K.P)
+                elif c == 5:
+                    x = rnd.choice(K.sec256_table()["pt+p"])
+                    obj = (x, K.ref_roots(x % K.P)[rnd.randrange(2)])
+                elif c == 6:
+                    q = K.ref_mul(rnd.randrange(1, 1 << rnd.choice([1, 8, 64, 255])))
+                    obj = rnd.choice([tuple(q), list(q), g.Point(*q)])
+                else:
+                    obj = (rnd.getrandbits(256), rnd.getrandbits(256))
+                via = rnd.choice(["Key", "keys.public"]) if isinstance(obj, tuple) else "Key"
+                try:
+                    k = kc(public_pair=obj, is_compressed=rnd.random() < 0.5) if via == "Key" else net.keys.public(obj)
+                    got = "ok"
+                except Exception as e:  # noqa: BLE001
+                    got = K._exc(e)
+                x, y = obj[0], obj[1]
+                num = x is not None and y is not None
+                ev.append({"e": "pub", "rep": type(obj).__name__ + (":" + type(obj.curve()).__name__ if hasattr(obj, "curve") else ""), "via": via,
+                           "f": {"isinf": x is None and y is None, "halfnone": (x is None) != (y is None),
+                                 "xlt": num and 0 <= x < K.P, "ylt": num and 0 <= y < K.P, "onc": num and K.on_curve(x, y)},
+                           "ok": got == "ok", "exc": got, "net": sym,
+                           "cls": "own" if isinstance(obj, tuple) and hasattr(obj, "curve") and obj.curve() is g else "other"})
         else:                # ---- arbitrary WIF payloads
             sym, net, pfx = rnd.choice(nets)
             for _ in range(5):
@@ -892,7 +1107,7 @@ def record_traces(seed, count):
                 elif r[0] != "none" and r[0] not in K.REFUSALS:
                     e["raised"] = True
                 ev.append(e)
-        traces.append({"kind": ["session", "secf", "der", "wifp"][kind], "ev": ev})
+        traces.append({"kind": ["session", "secf", "der", "wifp", "pub"][kind], "ev": ev})
     return traces
 
 
@@ -1000,6 +1215,10 @@ def _trace_key(ev):
         return "C10|trace|toykey|got=%s" % ev["exc"]
     if e == "new":
         return "C10|trace|new|got=%s" % ev["exc"]
+    if e == "pub":
+        f = ev["f"]
+        return "C10|trace|pub|via=%s|rep=%s|%s|got=%s" % (ev["via"], ev["rep"], "infinity" if f["isinf"] else "half-none" if f["halfnone"] else
+                                                         "oncurve=%s" % f["onc"], ev["exc"])
     return "C10|trace|%s" % e
 
 
@@ -1049,7 +1268,7 @@ def run(ctx):
     sfx = "_q" if q else "_t"
     names = ["sec_%s%s" % (c, sfx) for c in toy1] + ["sec_p283c" + sfx, "sec_p283u" + sfx] + ([] if q else ["sec_p283c_q"])
     names += ["der_grid" + sfx, "der_sig" + sfx, "der_short", "sec256" + sfx, "wif", "dersig"]
-    names += ["toykey_%s" % c for c in toy1 + ["p283"]]
+    names += ["toykey_%s" % c for c in toy1 + ["p283"]] + ["pubrep_%s" % c for c in toy1]
     jobs = [{"cfg": "MC_KeyEnc_" + nm} for nm in names] + [{"cfg": "MC_KeyEnc_secmut", "expect_ok": False, "count": False}]
     if ctx.only:
         jobs = [j for j in jobs if any(o in j["cfg"] for o in ctx.only)]
@@ -1061,6 +1280,10 @@ def run(ctx):
             replay_sec_toy(ctx, "p283" if "p283" in name else name.split("_")[1], r)
         elif name.startswith("toykey_"):
             replay_toykey(ctx, name.split("_")[1], r)
+        elif name.startswith("pubrep_"):
+            table = replay_pubrep(ctx, name.split("_")[1], r)
+            if name == "pubrep_p43":
+                replay_pubrep_256(ctx, table)
         elif name.startswith("sec256"):
             replay_sec256(ctx, r)
         elif name == "wif":
@@ -1097,7 +1320,7 @@ def run(ctx):
             ctx.sample({"trace": tt[0]})
     good = run_traces(ctx, batches)
     # binding self-test: corrupt one logged field of accepted traces
-    base = [t for t in good if t["ev"] and t["kind"] in ("session", "secf", "der", "wifp")]
+    base = [t for t in good if t["ev"] and t["kind"] in ("session", "secf", "der", "wifp", "pub")]
     picks = {}
     for t in base:
         picks.setdefault(t["kind"], t)
@@ -1120,8 +1343,11 @@ def run(ctx):
         elif e["e"] == "wifp":
             e["ok"] = not e["ok"] if isinstance(e["ok"], bool) else True
             e["comp"] = not e["comp"]
+        elif e["e"] == "pub":
+            m["ev"].append({"e": "pub", "rep": "Point", "via": "Key", "f": {"isinf": True, "halfnone": False, "xlt": False, "ylt": False, "onc": False},
+                            "ok": True, "exc": "ok"})
         muts.append(m)
     orig = [picks[k] for k in sorted(picks)]
     rej = validate_traces(ctx, [("p43", orig + muts)])[0]
-    ctx.selftest("trace_rejects_corrupted_field", len(muts) == 4 and sorted(i for i, _ in rej) == list(range(len(orig), len(orig) + len(muts))))
+    ctx.selftest("trace_rejects_corrupted_field", len(muts) == 5 and sorted(i for i, _ in rej) == list(range(len(orig), len(orig) + len(muts))))
     ctx.exhaustive = not q
